@@ -134,6 +134,9 @@ func (provider) GetTxBondAspects(ctx context.Context, contract common.Address, p
 	}
 	f := Firing{Seq: h.nextSeq(), Contract: fmt.Sprintf("%x", contract[:]), Point: pointName(point), N: len(b.Aspects), ProvErr: b.ProvErr}
 	h.Firings = append(h.Firings, f)
+	if h.OnFire != nil {
+		h.OnFire(f)
+	}
 	if h.Rec != nil {
 		h.Rec.add(Event{Ev: "JP", Seq: f.Seq, To: f.Contract, Point: f.Point, N: f.N, Err: f.ProvErr})
 	}
